@@ -84,6 +84,29 @@ def clean_exit_viol(ex, died, what):
     return None
 
 
+def after_verdict_diff(A, B, tags):
+    """Per client id, the lines naming it (client-directed lines by id, queries by the routing tag the recording
+    run bound to it).  Returns a description when run B's sequence for some id goes on after a verdict where
+    run A's does not (or has a verdict more)."""
+    def per_id(out):
+        seq = {}
+        for ln in out.decode("latin1").split("\n"):
+            f = ln.split(" ")
+            if len(f) > 2 and f[0] == "X" and f[2] in tags:
+                seq.setdefault(tags[f[2]], []).append(ln)
+            elif len(f) > 1 and len(f[0]) == 1 and f[0] in "oUuNIMCkKdDR" and f[1].lstrip("-").isdigit():
+                seq.setdefault(int(f[1]), []).append(ln)
+        return seq
+    sa, sb = per_id(A), per_id(B)
+    for cid in sorted(sb):
+        a, b = sa.get(cid, []), sb[cid]
+        j = next((j for j in range(min(len(a), len(b))) if a[j] != b[j]), min(len(a), len(b)))
+        if j < len(b) and j > 0 and b[j - 1][:1] in "DRkK":
+            if True:
+                return "client %d: after %r the daemon went on with %r (line per read: %r)" % (cid, b[j - 1][:80], b[j][:120], a[j][:80] if j < len(a) else None)
+    return None
+
+
 IN_USE_RE = re.compile(rb"(\d+) in use")
 
 
@@ -237,7 +260,8 @@ class BytesProfile:
                     junk_at.append([n, rnd.choice([b" ".join(w[:4]), b" ".join(w[:4]), b" ".join(w[:3]),
                                                    b" ".join([w[0], b"X", w[2], w[3]]),
                                                    b" ".join(w[:4]) + b" "]).decode("latin1")])
-            plan.update({"lines": [l.decode("latin1") for l in S], "seg_seed": seg_seed, "junk": junk_at})
+            plan.update({"lines": [l.decode("latin1") for l in S], "seg_seed": seg_seed, "junk": junk_at,
+                         "tags": {t: c for t, c in sorted(getattr(base, "tagmap", {}).items())}})
         else:
             data = b"".join(l + b"\n" for l in S[:rnd.choice([3, 6, 12])])
             plan.update({"data": data.decode("latin1"), "garbage": rnd.random() < 0.3})
@@ -296,6 +320,11 @@ class BytesProfile:
                     res.viol.append(Violation("C08", "segmentation-changes-output",
                                               "same bytes, other read boundaries (%d reads, %d read faults): output differs: %s" %
                                               (len(chunks), len(faults), first_diff(A, b"".join(ob)))))
+                    v1 = after_verdict_diff(A, b"".join(ob), plan.get("tags", {}))
+                    if v1:
+                        # run A (a line per read) was judged line by line when the stream was recorded: what run B
+                        # says beyond it right after a client's verdict is output for a client that is done with
+                        res.viol.append(Violation(("C01", "C08"), "output-after-verdict-when-lines-share-a-read", v1))
                     ua, ub = IN_USE_RE.findall(A), IN_USE_RE.findall(b"".join(ob))
                     if ua != ub:
                         # run A's figures were checked against the model when the stream was recorded
